@@ -117,7 +117,14 @@ static inline void v_finish(void) {
     fflush(stdout);
 }
 #ifdef __SANITIZE_ADDRESS__
+#ifdef VERIF_COV   /* coverage builds (bin/coverage.py) carry no sanitizer runtime: the LSan entry points become no-ops */
+static int __lsan_do_recoverable_leak_check(void) { return 0; }
+static void __lsan_do_leak_check(void) {}
+#define __lsan_disable() ((void)0)
+#define __lsan_enable() ((void)0)
+#else
 int __lsan_do_recoverable_leak_check(void);
 void __lsan_do_leak_check(void);
+#endif
 #endif
 #endif
